@@ -65,7 +65,7 @@ func (s *JSONDB) Update(dagFile, requestID string, status *model.Status) error {
 	if err != nil {
 		return err
 	}
-	w := &writer{target: f.File}
+	w := &writer{target: f.File, mustExist: true}
 	if err := w.open(); err != nil {
 		return err
 	}
